@@ -759,4 +759,13 @@ theorem findDesc_mem {tbl : List Descriptor} {cls name : String} {d : Descriptor
   simp only [Bool.and_eq_true, beq_iff_eq] at hp
   exact ⟨hm, hp.1, hp.2⟩
 
+/-- `add_observer` changes nobody's type (round 6, used by the constructor theorems) -/
+theorem typeOk_addObserver (ci : ClassInfo) (w : World) (u x : Nat) (acc : List String) :
+    typeOk (addObserver ci w u).1.heap acc x = typeOk w.heap acc x := by
+  unfold addObserver
+  split
+  · apply typeOk_congr
+    by_cases hx : x = u <;> simp [Heap.setParent, hx]
+  · rfl
+
 end Cherab.Groups
